@@ -143,6 +143,7 @@ package sherpa
 // ProxyFunc contract the retry loop relies on (requires about the captured s and rlog hold where the literal is made)
 //@ func (s *Service) ProxyRequestToEndpointsWithRetry$1
 //@   property C02 C05 C19
+//@   safety
 //@   requires s != nil && s.configuration != nil && w != nil && rlog != nil && r != nil && r.URL != nil && endpoint != nil && endpoint.URL != nil && stats != nil && ctx != nil
 //@   requires !ghost(w).started && ghost(w).hdr != nil
 //@   modifies *
